@@ -126,10 +126,9 @@ class C19(Prop):
 
     def gen(self, rng, family, tier):
         if family == "ctor":
-            plan = {"kind": "ctor", "rps": rng.choice([0, 0.0, -1, -0.5, -1e-300, 1e9, 1e9 + 1, 1.0000001e9, 2e9, 1e18, float("inf"), 1e-9, 0.1, 1, 3, 1e9 - 1, 999_999_999.5, -5, -1000.0, float("nan"), -float("inf")]), "gaps": [0, 0]}
+            plan = {"kind": "ctor", "rps": rng.choice([0, 0.0, -0.0, -1, -0.5, -1e-300, 1e9, 1e9 + 1, 1.0000001e9, 2e9, 1e18, float("inf"), 1e-9, 0.1, 1, 3, 1e9 - 1, 999_999_999.5, -5, -1000.0, float("nan"), -float("inf")]), "gaps": [0, 0]}
             plan["via"] = rng.choice(["direct", "direct", "sync-session", "async-session"])
-            if plan["via"] != "direct" and plan["rps"] == 0:
-                plan["via"] = "direct"  # limit_rps=0 reads as "no limit" for a session: nothing is claimed
+            # limit_rps=0 / 0.0 / -0.0 through a session constructor is refused like any other non-positive rate (fix bb3a74d)
             return plan
         if family == "session":
             ver = rng.choice(["v1", "v2c", "v2c", "v3"])
